@@ -314,6 +314,36 @@ func TestVerifReplay(t *testing.T) {
                   sample=dict(obligation='Add.X3', aliasing='q=p1', claim='X3 == (X1Y2+X2Y1)(Y1Y2+3(X1Z2+X2Z1)-3bZ1Z2) - (Y1Z2+Y2Z1)(-3X1X2+3b(X1Z2+X2Z1)-9Z1Z2) as polynomials'))
         if not unknown:
             ck.record('encodings', 'proved', 'decode accepts exactly 00 and 04||x||y with x,y<p on the curve and leaves the receiver untouched otherwise; encode gives canonical X/Z, Y/Z for every representative (safe and fast conversions satisfy the same defining congruence); infinity <-> 00')
+    # coordinate decoding on the real code: the field-element contract used above ("SetBytes accepts exactly the canonical
+    # encodings") is discharged here on the real fiat.SM2Element.SetBytes, and a failure is replayed through SM2Point.SetBytes
+    okd, detail, wit = setbytes_obligation(prog, ck, 'SM2Element', ref.P, 'sm2')
+    if okd is True:
+        ck.record('coordinate_decoding', 'proved', detail + ' (real fiat.SM2Element.SetBytes, all 2^256 strings)')
+    elif okd == 'cex':
+        xs = 1
+        while True:
+            rhs = (xs ** 3 - 3 * xs + ref.B) % ref.P
+            ys = pow(rhs, (ref.P + 1) // 4, ref.P)
+            if ys * ys % ref.P == rhs and xs + ref.P < 2 ** 256:
+                break
+            xs += 1
+        enc = [4] + list(b32(xs + ref.P)) + list(b32(ys))
+        srcd = '''package internal
+import ("testing"; "bytes")
+func TestVerifReplay(t *testing.T) {
+	in := %s
+	q, err := NewSM2Point().SetBytes(in)
+	if err == nil && !bytes.Equal(q.Bytes_Unsafe(), in) { t.Fatalf("non-canonical encoding (x = p + %d) accepted; re-encoding differs from the input") }
+	if err == nil { t.Fatalf("non-canonical encoding accepted") }
+}''' % (go_bytes(enc), xs)
+        okx, outx, pathx = ck.go_test('sm2/internal', srcd, name='noncanonical')
+        if okx is False:
+            ck.record('coordinate_decoding', 'violated', detail, sample=dict(encoding=hexs(enc)))
+            ck.violation('SetBytes.noncanonical', 'point decoding accepts coordinates >= p (decoded modulo p), so decode/encode does not round-trip', pathx)
+        else:
+            ck.encoder_mismatch('coordinate_decoding', detail)
+    else:
+        ck.record('coordinate_decoding', 'inconclusive', detail)
     ck.finish()
 
 
